@@ -819,7 +819,8 @@ def method_recursion(ctx):
     pinfo = lambda name, what="value": Obj("PInfo(%s:%s)" % (name, what), inst=None, cls=cls, name=name, what=what, __kind__="PInfo")
     A_VAL, A_BND, B_VAL, C_VAL = pinfo("a"), pinfo("a", "bounds"), pinfo("b"), pinfo("c")
     DYN = Obj("DInfo(sub.x)", spec="sub.x")
-    for order in (("a", "helper"), ("helper", "a"), ("b", "helper", "a")):
+    for order, outer_dynamic in [(o, d) for o in (("a", "helper"), ("helper", "a"), ("b", "helper", "a")) for d in (True, False)]:
+        flags = []
         helper_method = Obj("helper_function", _dinfo={"dependencies": ["a:bounds", "c", "sub.x"], "watch": False})
         helper = Obj("MInfo(helper)", inst=None, cls=cls, name="helper", method=helper_method, __kind__="MInfo")
         m_method = Obj("m_function", _dinfo={"dependencies": list(order), "watch": True})
@@ -829,6 +830,7 @@ def method_recursion(ctx):
 
         def hook(fn, args, kwargs):
             if fn.endswith(".param._spec_to_obj") and args and args[0] in table:
+                flags.append((args[0], args[1] if len(args) > 1 else kwargs.get("dynamic", True), args[2] if len(args) > 2 else kwargs.get("intermediate", True)))
                 d, dd = table[args[0]]
                 return (list(d), list(dd))
             if fn == "isinstance" and len(args) == 2:
@@ -836,7 +838,7 @@ def method_recursion(ctx):
             return NotImplemented
         it = Interp(ctx.hier, call_hook=hook, inline_module_functions=True, globals={"PInfo": "PInfo"})
         try:
-            outs = it.run_all(f, {"minfo": minfo, "dynamic": True, "intermediate": True})
+            outs = it.run_all(f, {"minfo": minfo, "dynamic": outer_dynamic, "intermediate": True})
         except Unsupported as e:
             raise AnalysisError("depends model: absint cannot interpret _params_depended_on: %s" % e)
         if len(outs) != 1 or outs[0].imprecise or outs[0].kind != "return" or not (isinstance(outs[0].value, tuple) and len(outs[0].value) == 2):
@@ -855,6 +857,13 @@ def method_recursion(ctx):
             problems.append("%s: unexpected dependencies %s" % (desc, [x.name for x in extra]))
         if not any(d is DYN for d in dyn):
             problems.append("%s: the dynamic dependency of the helper ('sub.x') is lost" % desc)
+        # how the specs are to be resolved -- at class creation (dynamic=False: sub-object paths stay dynamic) or on an
+        # instance -- is the caller's decision for the WHOLE dependency tree, the specs of a named method included
+        wrong = [fl for fl in flags if fl[1] is not outer_dynamic or fl[2] is not True]
+        if wrong:
+            problems.append("%s, resolved with dynamic=%s: the spec %r of the tree is resolved with dynamic=%s, intermediate=%s -- at class creation a path declared through a named method "
+                            "('sub.x') is resolved against the CLASS default object once and for all: instances watch that never-attached object and never rebind to the one they hold" % (
+                                desc, outer_dynamic, wrong[0][0], wrong[0][1], wrong[0][2]))
     return n, problems
 
 
